@@ -1260,7 +1260,7 @@ pub fn run_case(case: &Case) -> RunRecord {
         producer_steps: 0,
         items_delivered: 0,
         faults_fired: 0,
-        max_polls_per_consumer: 400,
+        max_polls_per_consumer: 50_000,
     };
     {
         let mut w = env.borrow_mut();
